@@ -688,6 +688,11 @@ class Request(interfaces.Request, BaseUnicastRequest):
             # similar to a cancelled task
             self._runner = None
             self._stop_interest()
+            if self.observation is not None and not self.observation.cancelled:
+                # Nothing will ever be fed into the observation now; whoever
+                # is still iterating over it (or registered an errback) needs
+                # to be told, or would wait forever.
+                self.observation.error(error.ObservationCancelled())
         # Otherwise, there will be a runner still around, and it's its task to
         # call _stop_interest.
 
@@ -873,6 +878,8 @@ class BlockwiseRequest(BaseUnicastRequest, interfaces.Request):
         # see Request._response_cancellation_handler
         if self.response.cancelled():
             self._runner.cancel()
+            if self.observation is not None and not self.observation.cancelled:
+                self.observation.error(error.ObservationCancelled())
 
     @classmethod
     async def _run_outer(cls, app_request, response, weak_observation, protocol, log):
